@@ -388,7 +388,7 @@ func c08Random(r *Rng) C08Case {
 		c.Body = "plain text"
 	case 3:
 		// a JSON value followed by something else: not a JSON text (white space alone is fine)
-		c.Body += Pick(r, []string{" trailing", "{}", " 1", "]", "\n", " \t\n"})
+		c.Body += Pick(r, []string{" trailing", "{}", " 1", "]", "}", " }", "\n", " \t\n"})
 	}
 	return c
 }
@@ -428,6 +428,20 @@ func c08Directed() []C08Case {
 				c.Responses = map[string]C08Resp{"200": {Content: map[string]*GSchema{"application/json": sc}}}
 			})
 		}
+	}
+	// string lengths count characters, not bytes of the UTF-8 encoding: bodies and headers at the bound
+	for _, tc := range []struct {
+		text     string
+		min, max uint64
+	}{{"Zürich", 0, 6}, {"Zürich", 0, 5}, {"Zürich", 6, 6}, {"Zürich", 7, 9}, {"éé", 3, 9}, {"éé", 2, 2}, {"日本語", 0, 3}, {"日本語", 4, 9}, {"abc", 3, 3}} {
+		tc := tc
+		str := &GSchema{HasTypes: true, Types: []string{"string"}, MinLen: tc.min, MaxLen: up(tc.max)}
+		add(200, "application/json; charset=utf-8", `{"name":"`+tc.text+`"}`, func(c *C08Case) {
+			c.Responses = map[string]C08Resp{"2XX": {Content: map[string]*GSchema{"application/json": {HasTypes: true, Types: []string{"object"}, Required: []string{"name"}, Props: map[string]*GSchema{"name": str}}}}}
+		})
+		add(200, "text/plain; charset=utf-8", tc.text, func(c *C08Case) {
+			c.Responses = map[string]C08Resp{"200": {Content: map[string]*GSchema{"text/plain": str}}}
+		})
 	}
 	add(200, "application/json; charset=utf-8", `{"id":1}`, nil)
 	add(200, "text/plain", `{"id":1}`, nil)
